@@ -2,8 +2,8 @@
 package main
 
 import (
-	"math"
 	"fmt"
+	"math"
 	"math/bits"
 	"sort"
 	"sync"
@@ -438,14 +438,14 @@ func layer64(r *ev.Run) {
 										Replay: map[string]interface{}{"word": fmt.Sprintf("%#x", w), "fn": name, "n": nv, "threshold": thr}})
 								}
 							}
-							chk("GetNAsI64", b.GetNAsI64(nv), false)
-							chk("RGetNAsI64", b.RGetNAsI64(nv), true)
-							chk("GetNAsI32", conv32(b.GetNAsI32(nv)), false)
-							chk("RGetNAsI32", conv32(b.RGetNAsI32(nv)), true)
-							chk("GetNAsI16", conv16(b.GetNAsI16(nv)), false)
-							chk("RGetNAsI16", conv16(b.RGetNAsI16(nv)), true)
-							chk("GetNAsI8", conv8(b.GetNAsI8(nv)), false)
-							chk("RGetNAsI8", conv8(b.RGetNAsI8(nv)), true)
+							chk("GetNAsI64", guardGet(func() []int64 { return b.GetNAsI64(nv) }), false)
+							chk("RGetNAsI64", guardGet(func() []int64 { return b.RGetNAsI64(nv) }), true)
+							chk("GetNAsI32", guardGet(func() []int64 { return conv32(b.GetNAsI32(nv)) }), false)
+							chk("RGetNAsI32", guardGet(func() []int64 { return conv32(b.RGetNAsI32(nv)) }), true)
+							chk("GetNAsI16", guardGet(func() []int64 { return conv16(b.GetNAsI16(nv)) }), false)
+							chk("RGetNAsI16", guardGet(func() []int64 { return conv16(b.RGetNAsI16(nv)) }), true)
+							chk("GetNAsI8", guardGet(func() []int64 { return conv8(b.GetNAsI8(nv)) }), false)
+							chk("RGetNAsI8", guardGet(func() []int64 { return conv8(b.RGetNAsI8(nv)) }), true)
 						}
 					}
 					mu.Lock()
@@ -485,6 +485,16 @@ func layer64(r *ev.Run) {
 	r.Sample(map[string]interface{}{"layer": "64-bit", "word": fmt.Sprintf("%#x", sample), "iterators": 10, "thresholds": "popcount-1, popcount, popcount+1, 9"})
 	r.AddPart(ev.Part{Name: "bit64/iterators", Evaluations: total + setN, States: int64(len(ws)), Transitions: total + setN, Outcomes: int64(len(outcomes)), Exhaustive: true, Blocked: true,
 		Bound: fmt.Sprintf("%d words (popcount<=2 and >=62, all intervals, 16-bit lane patterns and complements), both traversal branches each", len(ws))})
+}
+
+// guardGet runs a GetN call; a panic is turned into a result that cannot match (reported by chk).
+func guardGet(f func() []int64) (out []int64) {
+	defer func() {
+		if r := recover(); r != nil {
+			out = []int64{-987654321, -987654321, -987654321}
+		}
+	}()
+	return f()
 }
 
 func conv32(s []int32) []int64 {
@@ -696,12 +706,12 @@ func layer1024(r *ev.Run) {
 									Replay: map[string]interface{}{"members": mem, "fn": name, "n": nv, "threshold": thr}})
 							}
 						}
-						chk("GetNAsI64", b.GetNAsI64(nv), false)
-						chk("RGetNAsI64", b.RGetNAsI64(nv), true)
-						chk("GetNAsI32", conv32(b.GetNAsI32(nv)), false)
-						chk("RGetNAsI32", conv32(b.RGetNAsI32(nv)), true)
-						chk("GetNAsI16", conv16(b.GetNAsI16(nv)), false)
-						chk("RGetNAsI16", conv16(b.RGetNAsI16(nv)), true)
+						chk("GetNAsI64", guardGet(func() []int64 { return b.GetNAsI64(nv) }), false)
+						chk("RGetNAsI64", guardGet(func() []int64 { return b.RGetNAsI64(nv) }), true)
+						chk("GetNAsI32", guardGet(func() []int64 { return conv32(b.GetNAsI32(nv)) }), false)
+						chk("RGetNAsI32", guardGet(func() []int64 { return conv32(b.RGetNAsI32(nv)) }), true)
+						chk("GetNAsI16", guardGet(func() []int64 { return conv16(b.GetNAsI16(nv)) }), false)
+						chk("RGetNAsI16", guardGet(func() []int64 { return conv16(b.RGetNAsI16(nv)) }), true)
 					}
 				}
 				mu.Lock()
